@@ -9,7 +9,7 @@
 EXTENDS Integers, Sequences, FiniteSets, TLC
 
 (* requirements an entry point may have *)
-Reqs == {"square", "hermitian", "min2", "tall", "wide", "quat", "dense", "option", "coupled", "order3", "fullrank", "realscalar", "operandtype"}
+Reqs == {"square", "hermitian", "min2", "tall", "wide", "quat", "dense", "option", "coupled", "order3", "fullrank", "realscalar", "operandtype", "conformable"}
 
 (* entry point -> set of requirements (from the documented guards) *)
 EP == [
@@ -54,6 +54,11 @@ EP == [
   normQsparse |-> {"option"},
   sparse_scalar_mul |-> {"realscalar"},          \* SparseQuaternionMatrix * c and c * SparseQuaternionMatrix: real scalars only
   sparse_matmul |-> {"operandtype"},             \* SparseQuaternionMatrix @ x: quaternion ndarray or SparseQuaternionMatrix only
+  product_planes |-> {"conformable"},            \* timesQsparse(B0..B3, C0..C3): inner dimensions agree
+  product_dense |-> {"conformable"},             \* quat_matmat(A, B), dense @ dense
+  product_sparse_dense |-> {"conformable"},      \* quat_matmat / @ with a SparseQuaternionMatrix on the left
+  product_dense_sparse |-> {"conformable"},      \* quat_matmat with a SparseQuaternionMatrix on the right
+  product_sparse_sparse |-> {"conformable"},     \* SparseQuaternionMatrix @ SparseQuaternionMatrix
   apply_blur_fft |-> {"option"},
   qslst_restore_fft |-> {"option"},
   qslst_restore_matrix |-> {"coupled"},
@@ -81,7 +86,9 @@ Violates == [
   unknown_option_fragment |-> "option", unknown_option_empty |-> "option", unknown_option_case |-> "option", unknown_option_type |-> "option",
   not_order3 |-> "order3",
   complex_scalar |-> "realscalar", numpy_complex_scalar |-> "realscalar", nonnumeric_scalar |-> "realscalar", quaternion_scalar |-> "realscalar",
-  unsupported_operand |-> "operandtype"
+  unsupported_operand |-> "operandtype",
+  inner_mismatch |-> "conformable", inner_mismatch_1x1_right |-> "conformable", inner_mismatch_1x1_left |-> "conformable",
+  inner_mismatch_vector |-> "conformable", outer_swapped |-> "conformable"
 ]
 Classes == DOMAIN Violates
 (* boundary shapes that are themselves out of the domain of some entry points   *)
